@@ -6,12 +6,12 @@
    Proofs: Proofs.WriterProofs*, WriterWf*, WriterSeq*, WriterGenTies. *)
 From Coq Require Import ZArith List String Ascii Bool.
 From Model Require Import PyBase Graph PeriodicTable Stereo Writer.
-From Gen Require Import Elements SmilesTables SmilesMore.
-From Coq Require Import Permutation.
+From Gen Require Import Elements SmilesTables SmilesMore SmilesEntry CtMap FormatAtom.
+From Coq Require Import Permutation Sorted.
 From Proofs Require Import WriterProofs WriterProofsAtom WriterProofsTokens WriterProofsStream WriterProofsClosures WriterProofsRefuted
                            WriterWfAtoms WriterWfFlatten WriterWfStream WriterWfDfs WriterWfEvents WriterWfTree WriterWfClosures WriterWfParens
                            WriterWfComplete WriterWfFlatten2 WriterWfDistinct WriterWfFinal WriterWfRun
-                           WriterWfFuelDfs WriterWfFuelFlat WriterWfFuelRun WriterWfFuelBfs WriterSeqFlatten WriterSeqTree WriterSeqAtoms WriterGenTies WriterSeqBonds WriterSeqRings WriterSeqDisc.
+                           WriterWfFuelDfs WriterWfFuelFlat WriterWfFuelRun WriterWfFuelBfs WriterSeqFlatten WriterSeqTree WriterSeqAtoms WriterGenTies WriterSeqBonds WriterSeqRings WriterSeqDisc WriterEntryTies WriterCtMapTie WriterCtMapAnti WriterAtomTie WriterCxProofs.
 Import ListNotations.
 Open Scope Z_scope.
 
@@ -681,3 +681,161 @@ Theorem C02_ring_bonds_example :
   exists rec, parse (ctoks aty atk rings bnd smi) true = Ok rec /\ p_bonds rec = [(1, 0, PInt 1); (2, 1, PInt 1); (2, 0, PInt 1)].
 Proof. exact ring_bonds_example. Qed.
 Print Assumptions C02_ring_bonds_example.
+
+(* ---- round 4: tie by translation ---- *)
+
+(* MoleculeSmiles.__ct_map (the choice of the / \ marks): the bodies of its two loops and its frame, translated statement by
+   statement from chython/algorithms/smiles.py on every run (Gen.CtMap, tools/gen_ctmap.py), are the hand-written model for ALL
+   arguments: molecule, registries, loop state, neighbour *)
+Theorem C02_ct_inner_generated : forall g tabs k cs env acc v,
+  g_ct_inner g tabs k cs env acc v = ct_inner g tabs k cs env acc v.
+Proof. exact ct_inner_generated. Qed.
+Print Assumptions C02_ct_inner_generated.
+
+Theorem C02_ct_outer_generated : forall g tabs acc kv, g_ct_outer g tabs acc kv = ct_outer g tabs acc kv.
+Proof. exact ct_outer_generated. Qed.
+Print Assumptions C02_ct_outer_generated.
+
+Theorem C02_ct_map_generated : forall g tabs adj, g_ct_map g tabs adj = ct_map g tabs adj.
+Proof. exact ct_map_generated. Qed.
+Print Assumptions C02_ct_map_generated.
+
+(* non-vacuity: F/C=C/F, a non-empty mark table, the same from both *)
+Theorem C02_ct_map_generated_example :
+  let g := mkMol [(1, mkAtom 9 None 0 false (Some 0) None); (2, mkAtom 6 None 0 false (Some 1) None);
+                  (3, mkAtom 6 None 0 false (Some 1) None); (4, mkAtom 9 None 0 false (Some 0) None)]
+                 [(1, [(2, mkBond 1 None)]); (2, [(1, mkBond 1 None); (3, mkBond 2 (Some true))]);
+                  (3, [(2, mkBond 2 (Some true)); (4, mkBond 1 None)]); (4, [(3, mkBond 1 None)])] in
+  let tabs := mkStabs [] [] [] [((2, 3), (1, 4, None, None))] [(2, (2, 3)); (3, (2, 3))] [(2, (2, 3)); (3, (2, 3))] [(2, 3); (3, 2)] in
+  let adj := [(1, [2]); (2, [1; 3]); (3, [2; 4]); (4, [3])] in
+  exists cm, g_ct_map g tabs adj = Ok cm /\ cm <> [] /\ ct_map g tabs adj = Ok cm.
+Proof. exact ct_map_generated_example. Qed.
+Print Assumptions C02_ct_map_generated_example.
+
+(* the entry points Smiles.__str__, smiles_atoms_order, __format__ (Gen.SmilesEntry, tools/gen_smiles_entry.py: their bodies
+   translated statement by statement; `run` = the value of self._smiles(...), `cxf` = self._format_cxsmiles, the second component =
+   what is written into the instance dictionary): whichever is used first, the string returned / cached in the slot @cached_method
+   reads and the order returned / cached in the slot @cached_property reads are the same text and order, and the text carries the
+   CXSMILES block whenever _format_cxsmiles gives one *)
+Theorem C02_entry_points_agree : forall run cxf,
+  let s := entry_text run cxf in
+  let o := snd run in
+  fst (g_str run cxf) = RStr s /\ cache_get (snd (g_str run cxf)) slot_order = Some (COrder o) /\
+  fst (g_atoms_order run cxf) = ROrder o /\ cache_get (snd (g_atoms_order run cxf)) slot_str = Some (CStr s) /\
+  fst (g_format_order run cxf) = RPair (ejoin (fst run)) o /\
+  cache_get (snd (g_format_order run cxf)) slot_str = Some (CStr s) /\
+  cache_get (snd (g_format_order run cxf)) slot_order = Some (COrder o) /\
+  (forall spec, esubstr "!x" spec = false -> g_format_spec run cxf spec false = (RStr s, [])) /\
+  (forall spec, esubstr "!x" spec = true -> g_format_spec run cxf spec false = (RStr (ejoin (fst run)), [])) /\
+  (forall spec, g_format_spec run cxf spec true = (RPair (ejoin (fst run)) o, [])).
+Proof. exact entry_points_agree. Qed.
+Print Assumptions C02_entry_points_agree.
+
+Theorem C02_entry_text_has_block : forall run cxf cx,
+  cxf (snd run) = Some cx -> entry_text run cxf = (ejoin (fst run) ++ " " ++ cx)%string.
+Proof. exact entry_text_has_block. Qed.
+Print Assumptions C02_entry_text_has_block.
+
+Theorem C02_entry_points_example :
+  let run := (["C"; "[CH2]"]%string, [1; 2]) in
+  let cxf := fun _ : list Z => Some "|^1:1|"%string in
+  g_str run cxf = (RStr "C[CH2] |^1:1|", [("smiles_atoms_order"%string, COrder [1; 2])]) /\
+  g_atoms_order run cxf = (ROrder [1; 2], [("__cached_method___str__"%string, CStr "C[CH2] |^1:1|")]).
+Proof. exact entry_points_example. Qed.
+Print Assumptions C02_entry_points_example.
+
+(* Writer.smiles_text (the model of format(mol, spec) of the theorems above) is the generated tail of __format__ applied to the
+   model's _smiles and _format_cxsmiles *)
+Theorem C02_smiles_text_generated : forall g w tb spec tabs,
+  smiles_text g w tb (opts_of_spec spec) tabs =
+  match smiles_tokens g w tb (opts_of_spec spec) tabs with
+  | Err e => Err e
+  | Ok None => Err ValueError
+  | Ok (Some (out, order)) =>
+      match fst (g_format_spec (map spell_otok out, order) (format_cxsmiles g) spec false) with
+      | RStr s => Ok (s, order)
+      | _ => Err ValueError
+      end
+  end.
+Proof. exact smiles_text_generated. Qed.
+Print Assumptions C02_smiles_text_generated.
+
+(* ---- round 4: from search to theorem - the direction marks ---- *)
+
+(* the mark table of __ct_map is antisymmetric for EVERY molecule, registry and adjacency (loop invariant, no hypothesis on the
+   input): a mark for the bond spelled a -> b comes with the opposite mark for b -> a *)
+Theorem C02_ct_map_antisymmetric : forall g tabs adj cm,
+  ct_map g tabs adj = Ok cm -> forall a b s, a <> b -> pget cm (a, b) = Some s -> pget cm (b, a) = Some (negb s).
+Proof. exact ct_map_antisymmetric. Qed.
+Print Assumptions C02_ct_map_antisymmetric.
+
+(* hence at token level, under any options: a bond written '/' from n to m is written '\' from m to n and vice versa (the two ends
+   of a ring closure, a branch entered from the other side) *)
+Theorem C02_format_bond_marks_opposite : forall g o tabs adj n m,
+  n <> m -> bond_of g m n = bond_of g n m ->
+  (format_bond g o (ct_map g tabs adj) n m = Ok "/"%string -> format_bond g o (ct_map g tabs adj) m n = Ok "\"%string) /\
+  (format_bond g o (ct_map g tabs adj) n m = Ok "\"%string -> format_bond g o (ct_map g tabs adj) m n = Ok "/"%string).
+Proof. exact format_bond_marks_opposite. Qed.
+Print Assumptions C02_format_bond_marks_opposite.
+
+Theorem C02_ct_map_antisymmetric_example :
+  exists cm, ct_map anti_g anti_tabs anti_adj = Ok cm /\
+    pget cm (1, 2) = Some true /\ pget cm (2, 1) = Some false /\
+    (exists s, pget cm (3, 4) = Some s /\ pget cm (4, 3) = Some (negb s)) /\
+    format_bond anti_g default_opts (ct_map anti_g anti_tabs anti_adj) 1 2 = Ok "/"%string /\
+    format_bond anti_g default_opts (ct_map anti_g anti_tabs anti_adj) 2 1 = Ok "\"%string.
+Proof. exact ct_map_antisymmetric_example. Qed.
+Print Assumptions C02_ct_map_antisymmetric_example.
+
+(* ---- round 4: tie by translation - the decision part of _format_atom ---- *)
+
+(* Writer.format_atom is the hand-written head (atom and symbol lookup, stereo mark) followed by the tail of MoleculeSmiles._format_atom
+   as translated from the source on every run (Gen.FormatAtom, tools/gen_format_atom.py: charge slot, the bracket / hydrogen-count
+   chain, aromatic lower-casing, join), for ALL molecules, options, registries and atoms *)
+Theorem C02_format_atom_generated : forall g o tabs n adj,
+  format_atom g o tabs n adj =
+  match atom_of g n with
+  | None => Err KeyError
+  | Some a =>
+      match symbol_of_num (a_num a) with
+      | None => Err KeyError
+      | Some sym =>
+          match stereo_mark g o tabs n adj a with
+          | Err e => Err e
+          | Ok st =>
+              g_format_atom_tail o [EmptyString; iso_slot a; EmptyString; st; EmptyString; EmptyString; map_slot o n; EmptyString]
+                                 (a_chg a) sym (a_rad a) (a_h a) (hybridization g n) (a_num a) (negb (no_plain_neighbours g n))
+          end
+      end
+  end.
+Proof. exact format_atom_generated. Qed.
+Print Assumptions C02_format_atom_generated.
+
+Theorem C02_format_atom_generated_example :
+  g_format_atom_tail default_opts [EmptyString; EmptyString; EmptyString; EmptyString; EmptyString; EmptyString; EmptyString; EmptyString]
+                     0 "N" false (Some 1) 4 7 true = Ok "[nH]"%string /\
+  g_format_atom_tail default_opts [EmptyString; "13"%string; EmptyString; "@"%string; EmptyString; EmptyString; EmptyString; EmptyString]
+                     1 "C" false (Some 1) 1 6 true = Ok "[13C@H+]"%string.
+Proof. exact format_atom_generated_example. Qed.
+Print Assumptions C02_format_atom_generated_example.
+
+(* ---- round 4: from search to theorem - the CXSMILES radical block of the writer ---- *)
+
+(* for every molecule and every written order: the block exists exactly when some atom is a radical; it is '|^1:' + positions joined
+   by ',' + '|'; the positions are exactly the zero-based written positions of the radical atoms, each once, ascending *)
+Theorem C02_cxsmiles_block_spec : forall g order,
+  (format_cxsmiles g order = None <-> existsb (fun na => a_rad (snd na)) (m_atoms g) = false) /\
+  (forall cx, format_cxsmiles g order = Some cx ->
+     cx = scat ["|^1:"%string; String.concat "," (map str_Z (radical_positions g order 0)); "|"%string]) /\
+  (forall p, In p (radical_positions g order 0) <->
+     exists k n, nth_error order k = Some n /\ p = Z.of_nat k /\ is_rad g n = true) /\
+  StronglySorted Z.lt (radical_positions g order 0).
+Proof. exact cxsmiles_block_spec. Qed.
+Print Assumptions C02_cxsmiles_block_spec.
+
+Theorem C02_cxsmiles_block_example :
+  let g := mkMol [(1, mkAtom 6 None 0 false (Some 3) None); (2, mkAtom 6 None 0 true (Some 2) None)]
+                 [(1, [(2, mkBond 1 None)]); (2, [(1, mkBond 1 None)])] in
+  format_cxsmiles g [1; 2] = Some "|^1:1|"%string /\ format_cxsmiles g [2; 1] = Some "|^1:0|"%string.
+Proof. exact cxsmiles_block_example. Qed.
+Print Assumptions C02_cxsmiles_block_example.
